@@ -217,18 +217,6 @@ theorem exec_execStmt_tmInsert (p : Nat) (b : String) (x : TxR) (fd : Bool) (nr 
     simp only [List.isEmpty_nil, if_true, exec_pure, Bool.true_and, Bool.not_true, Bool.and_false, Bool.false_eq_true, if_false]
   · intro h; omega
 
-/-- `runStmt` around a statement that queues no AFTER trigger -/
-theorem exec_runStmt_noAfter' (n : Nat) (env : Env) (stmt : Stmt) (s s' : St) (r : DmlResult)
-    (h : (execStmt (n + 1) env stmt).exec s.clearQ = (.ok r, s')) (hq : s'.afterQ = []) :
-    (runStmt (n + 2) env stmt).exec s = (.ok r, { s' with afterQ := s.afterQ }) := by
-  rw [runStmt]
-  simp only [exec_bind, exec_get, exec_modify, exec_pure]
-  have h' : (execStmt (n + 1) env stmt).exec { s with afterQ := [] } = (.ok r, s') := h
-  rw [h']
-  simp only
-  rw [drainAfter]
-  simp [exec_bind, hq]
-
 theorem exec_ret_new_tx (cb : Callbacks) (te : TypeEnv) (x : TxR) (fd : Bool) (s : St) :
     (withNewCid (evalExpr cb te (txPlEnv x fd) (Expr.col "" "new"))).exec s = (.ok (.row txCols (txVals x)), s.bump 1) := by
   have h : (evalExpr cb te (txPlEnv x fd) (Expr.col "" "new")).exec s.enter = (.ok (.row txCols (txVals x)), s.enter) := by
